@@ -4,6 +4,7 @@ import seqlib
 import fscklib
 import crashlib
 import vlib
+import dclib
 from vlib import Break
 
 MODULE = "GoNfsd.Props.C10"
@@ -64,6 +65,9 @@ def run(ctx):
             except Break as b:
                 ctx.breaks.append(b)
     if ok_go:
+        # the name cache of a directory (M8e): replies, Lastoff, the cache map and the slots after every step of real transactions
+        dclib.run(ctx, ok_drv, "C10")
+    if ok_go:
         # resource exhaustion: every allocation path at the exact boundary of a full disk (harness reclaim)
         rl = fscklib.run_images(ctx, ok_drv, "reclaim", ["reclaim", "-seed", str(ctx.seed)] + (["-hists", "9", "-rounds", "3"] if ctx.tier == "thorough" else ["-hists", "3", "-rounds", "1"]), set(), False)
         fscklib.oracle_lines(ctx, rl, "C10", "harness reclaim -seed %d (full-disk scenarios)" % ctx.seed)
@@ -76,7 +80,8 @@ def run(ctx):
     vlib.finish(
         ctx, "proof",
         "theorems: inode, directory-entry and handle codecs are bijective on well-formed values; the inode-cache protocol (load, in-place modify+write, evict, commit, "
-        "abort) keeps every cached inode equal to the logical disk at every quiescent point, hence a rebuilt server reads the same. Ties: codec correspondence; at quiescent "
+        "abort) keeps every cached inode equal to the logical disk at every quiescent point, hence a rebuilt server reads the same; name cache M8e: the dcache map holds exactly the live slots in every reachable state and the "
+        "directory with cache, hint and slot reuse refines a plain map (drop = identity). Ties: codec correspondence; dcache correspondence (every reply, Lastoff, cache map, slots); at quiescent "
         "points of generated histories every cached inode, name cache and allocator is compared with the logical disk, and full API dumps of the running server with a "
         "cleanly restarted one and one recovered from a copy of the raw image",
         "as C02 with -c10 N: every N operations and at the end of every scenario/sequence: flush, wait for background freeing, compare caches/allocators with the logical "
